@@ -381,6 +381,18 @@ func checkGCase(c GCase, transitions *int) (fs []Finding) {
 		} else if !sameState(got, want, true) {
 			add("model:"+o.Op, "after %s on %s the graph reads back as %s, the adjacency model says %s", o, s.Key(), got.Key(), want.Key())
 		}
+		// ... and the graph keeps agreeing with the model through further operations
+		// (state that the canonical rebuild would lose must not matter)
+		cur1 := want
+		for _, fo := range followUps(c.Codes) {
+			applyReal(g, fo)
+			cur1 = applyModel(cur1, fo)
+			errs = nil
+			if o6 := readBack(g, c.Codes, &errs); len(errs) > 0 || !sameState(o6, cur1, true) {
+				add("follow-up:"+o.Op, "after %s, then %s on %s the graph reads back as %s %v, the adjacency model says %s", o, fo, s.Key(), o6.Key(), errs, cur1.Key())
+				break
+			}
+		}
 		// 2. copies are independent (both directions)
 		g = buildReal(s, c.Codes)
 		cp := g.Copy()
